@@ -82,7 +82,7 @@ type Contract struct {
 }
 
 var reHead = regexp.MustCompile(`^(func|iface|extern|lemma)\s+(\S+)\s*(.*)$`)
-var reProps = regexp.MustCompile(`\[((?:C\d+\s*)+)\]\s*$`)
+var reProps = regexp.MustCompile(`\[((?:(?:C\d+|AUX)\s*)+)\]\s*$`)
 var reLabel = regexp.MustCompile(`^([a-z][A-Za-z0-9_-]*):\s+(.*)$`)
 
 type ContractFile struct {
